@@ -544,6 +544,28 @@ func genCacheTrace(c runCfg, o *Out, emit func(...string)) {
 		nops := 6 + r.Intn(24)
 		sizes := []int{0, 1, 7, 40, 60, 90, 120, 200, 333}
 		ttls := []int{-150, 50, 150, 250, 450, 1050}
+		if t%10 == 3 && limit <= 1000 {
+			// directed: the FIRST eviction candidate vanishes between the eviction's scan and its removal loop (another goroutine
+			// deleted / evicted it): each removal then fails; afterwards every key - i.e. every shard - must still be usable
+			for kk := 0; kk < nkeys; kk++ {
+				ver++
+				emit("ct", "store", itoa(kk), itoa(ver), itoa(120), itoa(1050), "none", "-")
+				emit("ct", "shift", itoa(100*(1+kk)))
+			}
+			// key 0 is the least recently used, i.e. the FIRST candidate; the others keep the cache above the target, so the
+			// loop does try to remove the vanished one
+			ds := []string{"delete:0"}
+			if nkeys > 3 && t%20 == 3 {
+				ds = append(ds, "delete:1")
+			}
+			emit("ct", "evict", itoa(100), strings.Join(ds, ";"))
+			for kk := 0; kk < nkeys; kk++ {
+				emit("ct", "get", itoa(kk))
+				ver++
+				emit("ct", "store", itoa(kk), itoa(ver), itoa(40), itoa(1050), "none", "-")
+				emit("ct", "shift", itoa(100))
+			}
+		}
 		for i := 0; i < nops; i++ {
 			k := r.Intn(nkeys)
 			switch x := r.Intn(100); {
